@@ -509,3 +509,110 @@ theorem classLabels_nat (ls : List Nat) (h0 : 0 ∈ ls) :
   simp [normLabel, hb, hmin]
 
 end SharkVerif.Import
+
+/-! ### token image of the LibSVM exporter and its read-back -/
+namespace SharkVerif.Import.Svm
+variable {V : Type}
+
+/-- index/value pairs `(o, v₀), (o+1, v₁), …` -/
+def enumFrom' (o : Nat) : List V → List (Nat × V)
+  | [] => []
+  | v :: t => (o, v) :: enumFrom' (o + 1) t
+
+theorem find_enumFrom' (vs : List V) : ∀ (o k : Nat),
+    (enumFrom' o vs).reverse.find? (fun p => p.1 == k) =
+      if h : o ≤ k ∧ k - o < vs.length then some (k, vs[k - o]'h.2) else none := by
+  induction vs with
+  | nil => intro o k; simp [enumFrom']
+  | cons v t ih =>
+    intro o k
+    simp only [enumFrom', List.reverse_cons, List.find?_append, ih (o + 1) k]
+    by_cases h1 : o + 1 ≤ k ∧ k - (o + 1) < t.length
+    · have h2 : o ≤ k ∧ k - o < (v :: t).length := by simp only [List.length_cons]; omega
+      rw [dif_pos h1, dif_pos h2]
+      simp only [Option.some_or]
+      have : k - o = (k - (o + 1)) + 1 := by omega
+      simp [this]
+    · rw [dif_neg h1]
+      simp only [Option.none_or, List.find?_cons, List.find?_nil]
+      by_cases hk : o = k
+      · subst hk
+        have h2 : o ≤ o ∧ o - o < (v :: t).length := by simp
+        rw [dif_pos h2]; simp
+      · have : ((o, v).1 == k) = false := by simp [hk]
+        rw [this]
+        have h2 : ¬ (o ≤ k ∧ k - o < (v :: t).length) := by
+          simp only [List.length_cons]; omega
+        rw [dif_neg h2]
+
+theorem denseRow_enum (zero : V) (vs : List V) : denseRow zero vs.length (enumFrom' 0 vs) = vs := by
+  apply List.ext_getElem
+  · simp [denseRow]
+  · intro k h1 h2
+    simp only [denseRow, List.getElem_map, List.getElem_range, find_enumFrom' vs 0 k]
+    have : 0 ≤ k ∧ k - 0 < vs.length := by omega
+    rw [dif_pos this]
+    simp
+
+end SharkVerif.Import.Svm
+
+namespace SharkVerif.Import.Svm
+variable {V : Type}
+
+theorem writes_enum (lab : V) (vs : List V) : ∀ o, writes 1 ⟨lab, enumFrom' (o + 1) vs⟩ = enumFrom' o vs := by
+  induction vs with
+  | nil => intro o; rfl
+  | cons v t ih =>
+    intro o
+    have := ih (o + 1)
+    simp only [writes, enumFrom', List.map_cons] at this ⊢
+    rw [this]
+    simp [writeIndex]
+
+theorem enum_sorted (vs : List V) : ∀ o, strictlyIncreasing ((enumFrom' o vs).map (·.1)) = true := by
+  induction vs with
+  | nil => intro o; rfl
+  | cons v t ih =>
+    intro o
+    cases t with
+    | nil => rfl
+    | cons w t' =>
+      have := ih (o + 1)
+      simp only [enumFrom', List.map_cons, strictlyIncreasing, Bool.and_eq_true, decide_eq_true_eq] at this ⊢
+      exact ⟨by omega, this⟩
+
+theorem enum_head (vs : List V) (o : Nat) (h : vs ≠ []) : ∃ v, (enumFrom' o vs).head? = some (o, v) := by
+  cases vs with
+  | nil => exact absurd rfl h
+  | cons v t => exact ⟨v, rfl⟩
+
+theorem enum_last (vs : List V) : ∀ o, vs ≠ [] → ∃ v, (enumFrom' o vs).getLast? = some (o + vs.length - 1, v) := by
+  induction vs with
+  | nil => intro o h; exact absurd rfl h
+  | cons v t ih =>
+    intro o _
+    cases t with
+    | nil => exact ⟨v, by simp [enumFrom']⟩
+    | cons w t' =>
+      obtain ⟨x, hx⟩ := ih (o + 1) (by simp)
+      refine ⟨x, ?_⟩
+      simp only [enumFrom', List.getLast?_cons_cons] at hx ⊢
+      rw [hx]; simp only [List.length_cons]; congr 2; omega
+
+theorem maxIndexLast_le (recs : List (Rec V)) (d : Nat)
+    (h : ∀ r ∈ recs, ∀ p, r.feats.getLast? = some p → p.1 ≤ d) : maxIndexLast recs ≤ d := by
+  unfold maxIndexLast
+  suffices H : ∀ (m : Nat), m ≤ d → recs.foldl (fun m r => match r.feats.getLast? with
+      | some p => max m p.1
+      | none => m) m ≤ d from H 0 (Nat.zero_le _)
+  induction recs with
+  | nil => intro m hm; exact hm
+  | cons r t ih =>
+    intro m hm
+    simp only [List.foldl_cons]
+    apply ih (fun r' hr' => h r' (by simp [hr']))
+    cases hl : r.feats.getLast? with
+    | none => exact hm
+    | some p => exact Nat.max_le.mpr ⟨hm, h r (by simp) p hl⟩
+
+end SharkVerif.Import.Svm
